@@ -139,7 +139,7 @@ class Prop:
                 c["_cut"] = True
                 yield c
             return
-        free = [i for i, e in enumerate(evs) if e["k"] not in ("hs", "hsu", "remove")]
+        free = [i for i, e in enumerate(evs) if e["k"] not in ("hs", "hsu", "remove", "reconf")]
         # drop runs of non-handshake events (handshakes define the session serials)
         chunk = max(len(free) // 2, 1)
         seen = 0
@@ -200,6 +200,8 @@ class Prop:
             ws = [base64.b64decode(w) for w in evs[pos].get("writes") or []]
             if any(w and any(base64.b64decode(p or "")[:len(w)] == w for p in lost) for w in ws):
                 return "packet-of-a-failed-tun-write-written-with-a-later-batch"
+        if pos < len(evs) and any(e["k"] == "reconf" for e in evs[:pos]) and "removed-peer" not in notes:
+            return "tun-write-differs-from-the-configuration-the-set-operation-denotes:" + ",".join(sorted(notes))[:60]
         if "removed-peer" in notes and pos < len(evs) and evs[pos].get("writes"):
             return "session-of-removed-peer-accepted"
         if "late-confirmed-key-expired" in notes and pos < len(evs) and evs[pos].get("writes"):
